@@ -11,11 +11,17 @@ package kafka
 // callback rests on the batcher's count limit being batch_size, which is also the
 // length of the slot table: an assumption between components, listed.)
 
+// The record slots are reused from batch to batch: every field of the slot is written
+// for every event - in particular the topic (the default topic unless the event names
+// one), or a slot would keep the topic of the event it carried in an earlier batch.
+
 //@ func (*Plugin).out$1
 //@   option allow-exit yes
 //@   requires data != nil && 0 <= i && i < len(data.messages)
 //@   ensures i == old(i) + 1 && len(data.messages) == old(len(data.messages))
 //@   ensures data.messages[old(i)] != nil
+//@   ghost gtl int = 0
+//@   ensures !p.config.UseTopicField || gtl == 0 ==> data.messages[old(i)].Topic == p.config.DefaultTopic
 //@   callee Encode(buf) (r, n)
 //@     pure
 //@     ensures 0 <= n && n <= len(r)
@@ -23,6 +29,7 @@ package kafka
 //@     pure
 //@   callee AsString() (s)
 //@     pure
+//@     set gtl := len(s)
 //@   callee CloneString(s) (r)
 //@     pure
 //@   callee Now() (t)
